@@ -182,14 +182,21 @@ class Result:
             if kf.get("property") == self.pid and kf.get("status") == "known" and key and kf.get("key") == key:
                 msg = "KNOWN-FINDING: property=%s %s" % (self.pid, kf.get("what", key))
                 if msg not in self.known: self.known.append(msg)
-                return
+                return False
         os.makedirs(os.path.join(EVID, "replays"), exist_ok=True)
         h = hashlib.sha256(replay_content.encode()).hexdigest()[:12]
         path = os.path.join(EVID, "replays", "%s-%s.txt" % (self.pid, h))
         open(path, "w").write(replay_content)
         self.violations.append((path, text, found_input))
+        return True
     def finish(self, level="proof", checker_cmd="", explanation=""):
         nob = len(self.obligations); ndis = sum(1 for o in self.obligations if o[1])
+        for n, okk, d in self.obligations:
+            if not okk: print("# UNDISCHARGED obligation: %s [%s]" % (n, d.replace("\n", " ")[:300]))
+        if ndis != nob and not self.violations:
+            # an obligation that does not check means the property is no longer shown to hold
+            self.violation("obligation(s) not discharged: " + "; ".join(n for n, okk, _ in self.obligations if not okk)[:300],
+                           "property %s: undischarged obligations\n%s\n" % (self.pid, "\n".join("%s [%s]" % (n, d) for n, okk, d in self.obligations if not okk)), found_input=False)
         cov = {"obligations": max(nob, 1), "discharged": ndis, "checker_cmd": checker_cmd or "make -C /verif/coq Props/Properties_%s.vo && coqc Print Assumptions (tools/check)" % self.pid,
                "trusted_base": self.trusted, "evaluations": self.evaluations, "distinct_nontrivial": len(self.nontrivial),
                "rule": self.rule, "samples": self.samples[:6] or ["(none)"], "traces_validated_against_impl": self.traces,
@@ -219,6 +226,7 @@ TRUSTED_COMMON = [
 def coq_gate(res, propfile, extra_targets=()):
     """regen, build property file, check assumptions and hygiene; records obligations. returns True when all proofs check."""
     ok, out = regen()
+    if not ok: ok, out = regen()      # one retry (transient compiler/tmp failures must not look like a broken proof)
     res.oblige("regen: constants and tables regenerated from %s" % REPO, ok, out[-400:] if not ok else "")
     ok, log = coq_build(["Props/%s.vo" % propfile] + list(extra_targets))
     if not ok:
